@@ -6,11 +6,11 @@ ids = [p['id'] for p in props]
 
 CLAIMS = {
  "C18": dict(cat="other", ref="DESIGN.md section 4, C18",
-   text="EXPLICITLY WEAK: only necessary structural conditions, decided independently of the loop forms (helpers inlined with their loops; segments between loop heads classified by the successor they inspect) - both traversals compare only the key of cursor.fingers[index] after a nil test and advance iff it is less than the search key (siblings agree); the level loop begins a pass iff index >= 0, 'less' keeps the level, 'stop' lowers it by one, every traversal starts on the top level (first index = number of levels - 1 = len(head.fingers) - 1) with the cursor at the head, moves only to the inspected successor, the insertion path records the cursor once per level, the result is the level-0 successor; Put splices every level of the new node reading the successor before linking, a node's height never exceeds the list's levels, Remove's loop covers the node's levels and unlinks only where the path points to it; results under equal / not equal. The ordered-map behaviour over histories, the sorted-sublist invariant, and independence from random heights are NOT decided; of the printed form only its walk is decided (print-walk: String() goes from the head along level 0 until nil and renders every node it passes; print-pure: it keeps no state) - that this chain is ascending and holds exactly the live keys rests on the undecided invariant. A new node's height is at least 1 on every path (node-height-positive; defect D9 repaired by a fix: commit).",
+   text="EXPLICITLY WEAK: only necessary structural conditions, decided independently of the loop forms (helpers inlined with their loops; segments between loop heads classified by the successor they inspect) - both traversals compare only the key of cursor.fingers[index] after a nil test and advance iff it is less than the search key (siblings agree); the level loop begins a pass iff index >= 0, 'less' keeps the level, 'stop' lowers it by one, every traversal starts on the top level (first index = number of levels - 1 = len(head.fingers) - 1) with the cursor at the head, moves only to the inspected successor, the insertion path records the cursor once per level, the result is the level-0 successor; Put splices every level of the new node reading the successor before linking, a node's height never exceeds the list's levels, Remove's loop covers the node's levels and unlinks only where the path points to it; results under equal / not equal. The ordered-map behaviour over histories, the sorted-sublist invariant, and independence from random heights are NOT decided; of the printed form only its walk is decided (print-walk: String() goes from the head along level 0 until nil and renders every node it passes; print-pure: it keeps no state) - that this chain is ascending and holds exactly the live keys rests on the undecided invariant. A new node's height is at least 1 on every path (node-height-positive; defect D9 repaired by a fix: commit). nil-guard: Put/Get/Remove read fields of the traversal's node result only behind its nil test (directly or through a helper that answers true only for a non-nil node).",
    note="assumes the comparison trait is a total order; internal/maplike is staged into a temporary module (no module of the repository builds it)",
    tech="static analysis: path constraints and counted-loop bounds over SSA of the staged package"),
  "C19": dict(cat="other", ref="DESIGN.md section 4, C19",
-   text="ADT laws of both implementations by composing symbolic operation summaries and normalising with a fixed rewrite system (field-of-literal, linear arithmetic, append/reslice/len axioms): Length(New)=len, Head(Cons)=x, Tail(Cons)=s, Length(Cons)=Length+1, IsEmpty=(Length==0); persistence (no store into / append onto the argument); list.New's descending prepend loop; Fold's accumulator discipline. 'Any script gives the same list on both implementations' is the initial-algebra argument on paper.",
+   text="ADT laws of both implementations by composing symbolic operation summaries and normalising with a fixed rewrite system (field-of-literal, linear arithmetic, append/reslice/len axioms): Length(New)=len, Head(Cons)=x, Tail(Cons)=s, Length(Cons)=Length+1, IsEmpty=(Length==0); persistence (no store into / append onto the argument); list.New's descending prepend loop; Fold's accumulator discipline. 'Any script gives the same list on both implementations' is the initial-algebra argument on paper. Monoid constructor rules shared with C10/C17 (Fold is stated for the monoid built by them).",
    note="the rewrite axioms for append and reslicing are a trusted base; internal/seq is staged into a temporary module",
    tech="static analysis: symbolic composition of straight-line SSA summaries + term rewriting"),
 
@@ -24,20 +24,20 @@ CLAIMS = {
    tech="static analysis: path constraints with branch polarities, type-argument checks on go/types"),
 
  "C04": dict(cat="other", ref="DESIGN.md section 4, C04",
-   text="Every composite optic's ordered event list is compared with its defining equation (join, Getter, Setter, BiMap, BiMapS/B/I/F through inlined helpers, lensM, iso, morphism with its nil test, shapeN Put/Get positional over N field lenses, ForShapeN, constructors). The constructors every composite is built over (NewLens / NewReflector) return a fresh lens of the very hseq.Type they were given, behind the type guard (guard rules shared with C01/C02: an interned or memoised lens of another entry breaks every ShapeN / BiMap / Join built on it). Lawfulness of the compositions follows on paper when the components are lawful; user conversions being inverse is a premise.",
+   text="Every composite optic's ordered event list is compared with its defining equation (join, Getter, Setter, BiMap, BiMapS/B/I/F through inlined helpers, lensM, iso, morphism with its nil test, shapeN Put/Get positional over N field lenses, ForShapeN, constructors). The constructors every composite is built over (NewLens / NewReflector) return a fresh lens of the very hseq.Type they were given, behind the type guard (guard rules shared with C01/C02: an interned or memoised lens of another entry breaks every ShapeN / BiMap / Join built on it). Lawfulness of the compositions follows on paper when the components are lawful; user conversions being inverse is a premise. Also run here because every composite presupposes them: the accessor address term and the offsets of the unfolding (shared with C01).",
    note="trusted: go/types, go/ssa, path engine; no composite performs a store of its own except lensM (census from C01)",
    tech="static analysis: event-list equality of straight-line SSA paths against defining equations; type-level witnesses"),
  "C14": dict(cat="other", ref="DESIGN.md section 4, C14/C15",
-   text="Iterator protocol of every combinator of trait/seq as path constraints: nil-is-empty, eager positioning of constructors, Next protocols of takeWhile/filter/plus/join, map.Value, leaves, ForEach drain/first-error, user functions always fed the element the iterator is positioned on (phi-aware), no writes to source slices. List semantics at any nesting follows by induction on paper; the induction and user functions are not decided. typed-nil: no possibly-nil pointer is converted to the iterator interface (nil interface = empty).",
+   text="Iterator protocol of every combinator of trait/seq as path constraints: nil-is-empty, eager positioning of constructors, Next protocols of takeWhile/filter/plus/join, map.Value, leaves, ForEach drain/first-error, user functions always fed the element the iterator is positioned on (phi-aware), no writes to source slices. List semantics at any nesting follows by induction on paper; the induction and user functions are not decided. typed-nil: no possibly-nil pointer is converted to the iterator interface (nil interface = empty). value-source: Value of every combinator that wraps an iterator is promoted through / forwarded to the wrapped iterator (a shadowing method declared in any file of the package is reported); only the mapping type computes its own.",
    note="assumes iterators are not aliased by their wrapper and are dead after Next returned false",
    tech="static analysis: path constraints with branch polarities over SSA, loop-carried value freshness, slice-write census"),
  "C15": dict(cat="other", ref="DESIGN.md section 4, C14/C15",
-   text="Same protocol rules for trait/pair (incl. ToSeq/FromSeq), plus key/value pairing: Key, Value, Next resolve through the same embedded iterator (method-set resolution), Key never redefined, two-argument user functions receive (X.Key(), X.Value()) of one iterator X read after X's last Next. typed-nil: no possibly-nil pointer is converted to the iterator interface (nil interface = empty).",
+   text="Same protocol rules for trait/pair (incl. ToSeq/FromSeq), plus key/value pairing: Key, Value, Next resolve through the same embedded iterator (method-set resolution), Key never redefined, two-argument user functions receive (X.Key(), X.Value()) of one iterator X read after X's last Next. typed-nil: no possibly-nil pointer is converted to the iterator interface (nil interface = empty). value-source as in C14, for Value and Key.",
    note="assumes iterators are not aliased by their wrapper and are dead after Next returned false",
    tech="static analysis: path constraints over SSA + method-set resolution paths on go/types"),
 
  "C01": dict(cat="other", ref="DESIGN.md section 4, C01",
-   text="Address term of every unsafe dereference in optics (base + L.Offset + L.RootOffs typed *A, four sibling methods agree), Put/Get effects, census of every unsafe.Pointer conversion in all packages, who-may-write census of hseq.Type.RootOffs/StructField with the offset-accumulation term of the unfolding recursion, positional pairing of ForProductN/ForSpectrumN/NewN/FMapN on type arguments, the type-identity guard, first-match lookups and the order of a selection by names (shared with C03). GetPut/PutGet/PutPut and 'neighbours untouched' for every layout follow on paper (reflect offsets along value embedding = compiler offsets; typed store writes sizeof(A)).",
+   text="Address term of every unsafe dereference in optics (base + L.Offset + L.RootOffs typed *A, four sibling methods agree), Put/Get effects, census of every unsafe.Pointer conversion in all packages, who-may-write census of hseq.Type.RootOffs/StructField with the offset-accumulation term of the unfolding recursion, positional pairing of ForProductN/ForSpectrumN/NewN/FMapN on type arguments, the type-identity guard, first-match lookups and the order of a selection by names (shared with C03). GetPut/PutGet/PutPut and 'neighbours untouched' for every layout follow on paper (reflect offsets along value embedding = compiler offsets; typed store writes sizeof(A)). construct-census (shared with C02): nothing but NewLens/NewReflector makes or re-types a lens.",
    note="assumes reflect reports true offsets and hseq.Type values are produced by hseq (public struct: clients are an assumption); thorough repeats under GOARCH=386/arm64",
    tech="static analysis: SSA address-term normalisation, unsafe/field-writer censuses over all packages, type-argument consistency on go/types"),
  "C02": dict(cat="other", ref="DESIGN.md section 4, C02",
@@ -50,11 +50,11 @@ CLAIMS = {
    tech="static analysis: counted-loop recognition, loop-carried value provenance, path constraints on SSA terms"),
 
  "C05": dict(cat="other", ref="DESIGN.md section 4, C05",
-   text="Per-iteration event constraints of every sequential stage, decided on all cut-point paths of the single stage goroutine (Map/FMap/Filter/TakeWhile/Take/Partition/Fold/ForEach/Void/Seq/ToSeq), Take's budget by interval analysis, Fold's accumulator provenance, one goroutine per stage, outputs closed on every exit; the wrappers built by Lift/Pure/LiftF/Try/TryF apply the user's function exactly once per call and return its result unchanged, Pure's closure analysed as re-entrant (its own captured state unknown on entry); Map / FMap enter the error hand-off exactly when the function reported an error. The list-image claim for every capacity and interleaving follows on paper from single goroutine + FIFO + exactly-once-per-iteration; schedules are not enumerated. ctor-leaves-inputs: the stage function itself performs no receive on its input channels.",
+   text="Per-iteration event constraints of every sequential stage, decided on all cut-point paths of the single stage goroutine (Map/FMap/Filter/TakeWhile/Take/Partition/Fold/ForEach/Void/Seq/ToSeq), Take's budget by interval analysis, Fold's accumulator provenance, one goroutine per stage, outputs closed on every exit; the wrappers built by Lift/Pure/LiftF/Try/TryF apply the user's function exactly once per call and return its result unchanged, Pure's closure analysed as re-entrant (its own captured state unknown on entry); Map / FMap enter the error hand-off exactly when the function reported an error. The list-image claim for every capacity and interleaving follows on paper from single goroutine + FIFO + exactly-once-per-iteration; schedules are not enumerated. ctor-leaves-inputs: the stage function itself performs no receive on its input channels. The monoid a caller builds with monoid.From/FromOp is the one Fold folds with (constructor rules shared with C10/C17).",
    note="assumes user functions terminate and do not touch the channels; Take's n >= 0; trusted: go/ssa, path engine, Go channel FIFO. Not decided: nothing is observed at run time.",
    tech="static analysis: cut-point path enumeration over SSA with event lists, branch polarities and infeasible-path pruning; interval analysis"),
  "C06": dict(cat="other", ref="DESIGN.md section 4, C06",
-   text="Pairing/typestate/ownership: single closer and exactly one close on every exit after the last send (or after wg.Wait with Done-after-last-send and Add = spawn count), every blocking operation classified (range over input, select with the stage's ctx.Done arm that exits, capacity-accounted send, wg.Wait), every loop cycle has a cancellation point and an exit, catch's false edge exits, no panic source, nothing delivered after an observed cancel (1 known finding: pipe.Fold). Termination/closure for every interleaving follows on paper. spawn-channels: no goroutine is started, on any path of its parent, with a channel variable it operates on still nil. ctor-leaves-inputs: the stage function itself performs no receive on its input channels.",
+   text="Pairing/typestate/ownership: single closer and exactly one close on every exit after the last send (or after wg.Wait with Done-after-last-send and Add = spawn count), every blocking operation classified (range over input, select with the stage's ctx.Done arm that exits, capacity-accounted send, wg.Wait), every loop cycle has a cancellation point and an exit, catch's false edge exits, no panic source, nothing delivered after an observed cancel (1 known finding: pipe.Fold). Termination/closure for every interleaving follows on paper. spawn-channels: no goroutine is started, on any path of its parent, with a channel variable it operates on still nil. ctor-leaves-inputs: the stage function itself performs no receive on its input channels. The try-form catch hands the error over only in a select that has the <-ctx.Done() arm beside the send (it is the stage's only look at the context on the failure path); an assertion on a countdown is accepted as unreachable only when the interval analysis never finds its segment feasible; monoid constructor rules shared with C17 (a Combine that can panic inside Fold's goroutine).",
    note="assumes inputs are eventually closed and user functions return; pipe.New is covered by C08; goroutine dumps are not taken",
    tech="static analysis: typestate/ownership rules over cut-point paths of every spawned goroutine (SSA), closed-world summaries of the catch role"),
  "C07": dict(cat="other", ref="DESIGN.md section 4, C07",
@@ -74,11 +74,11 @@ CLAIMS = {
    note="assumes time.Sleep(d) returns no earlier than d",
    tech="static analysis: loop-carried value stepping and must-pass-through over cut-point paths"),
  "C12": dict(cat="other", ref="DESIGN.md section 4, C12",
-   text="Join: one copier per range element with wg.Add(len(in)) before the spawns, copier forwards each received element exactly once with a cancellable send, single closer after wg.Wait, Done after last send. Arrival orders are not decided. ctor-leaves-inputs: the stage function itself performs no receive on its input channels.",
+   text="Join: one copier per range element with wg.Add(len(in)) before the spawns, copier forwards each received element exactly once with a cancellable send, single closer after wg.Wait, Done after last send. Arrival orders are not decided. ctor-leaves-inputs: the stage function itself performs no receive on its input channels. fork.Join stays a plain forwarding of pipe.Join (delegation, shared with C09).",
    note="trusted: go/ssa, path engine, range-loop recognition",
    tech="static analysis: counted-loop/range recognition + path constraints + WaitGroup ordering"),
  "C13": dict(cat="other", ref="DESIGN.md section 4, C13",
-   text="ONLY the structure of the token scheme: cap(ctl)=ops, ops cancellable token sends per cycle, exactly one time.After(interval) wait per cycle, one token then one cancellable send per element in order, outputs closed. The rate bound and every timing statement of the property are NOT decided (they quantify over a clock). ctor-leaves-inputs: the stage function itself performs no receive on its input channels.",
+   text="ONLY the structure of the token scheme: cap(ctl)=ops, ops cancellable token sends per cycle, exactly one time.After(interval) wait per cycle, one token then one cancellable send per element in order, outputs closed. The rate bound and every timing statement of the property are NOT decided (they quantify over a clock). ctor-leaves-inputs: the stage function itself performs no receive on its input channels. fork.Throttling stays a plain forwarding of pipe.Throttling (delegation, shared with C09).",
    note="rate not decided; assumes time.After(d) fires no earlier than d",
    tech="static analysis: counted-loop trip counts, must-pass-through, path constraints"),
 
